@@ -25,7 +25,7 @@ VARIANTS = {
     'development': dict(inc=[os.path.join(REPO, 'development')], header='<ffsm2/machine_dev.hpp>'),
 }
 PROPS = ['C%02d' % i for i in range(1, 21)]
-SPEC_MODULES = ['contracts.machine', 'contracts.serial', 'contracts.control', 'contracts.plans', 'contracts.c20', 'contracts.c13', 'contracts.c10', 'contracts.c07', 'contracts.structure', 'contracts.c17', 'contracts.voidp', 'contracts.sparse', 'contracts.wrappers', 'contracts.deep', 'contracts.p8']
+SPEC_MODULES = ['contracts.machine', 'contracts.serial', 'contracts.control', 'contracts.plans', 'contracts.c20', 'contracts.c13', 'contracts.c10', 'contracts.c07', 'contracts.structure', 'contracts.c17', 'contracts.voidp', 'contracts.sparse', 'contracts.wrappers', 'contracts.deep', 'contracts.p8', 'contracts.nolog']
 
 
 def load_units():
